@@ -230,6 +230,10 @@ func (s *RoundTrip) Run(env *core.Env, st *core.Stats) (vs []core.Violation) {
 		st.Probe("file-api-roundtrip")
 		dir := tempDir(env)
 		path := dir + "/roundtrip.mid"
+		// the path already holds a longer file: WriteFile must replace it, not write over its head
+		if err := os.WriteFile(path, append(append([]byte{}, stored...), bytes.Repeat([]byte{0x55}, 777)...), 0o644); err != nil {
+			panic(err)
+		}
 		val2, _, _ := s.Hist.Build()
 		var werr error
 		var back *smf.SMF
@@ -258,7 +262,7 @@ func (s *RoundTrip) Run(env *core.Env, st *core.Stats) (vs []core.Violation) {
 				add(true, core.V("file-api", "content", "ReadFile differs from what was built: %s", d))
 			}
 		}
-		// the file is left in place: the next WriteFile of this process overwrites a file of another length
+		os.Remove(path)
 		val3, _, _ := s.Hist.Build()
 		var e2 error
 		g2 := guarded(libBudget, false, func() { e2 = val3.WriteFile(dir + "/no-such-dir/x.mid") })
